@@ -87,7 +87,9 @@ Definition dstep (p : nat) (d : dpc) (ok : bool) (r : reg nat) (ns : nstate) : r
 Definition is_done (d : dpc) : bool := match d with DDone _ => true | _ => false end.
 
 (* ---- the single-flight leader, one step; inl = next pc, inr = result returned to all callers *)
-Definition lstep (me : nat) (pc : lpc) (ok : bool) (r : reg nat) (ns : nstate) : reg nat * nstate * (lpc + lres) :=
+(* fx = true models the proposed repair of tryClaimGrain (fixes/C30-claim-retry.diff): when the owner record has vanished
+   after a lost claim the claim is attempted again instead of going on without one *)
+Definition lstep (fx : bool) (me : nat) (pc : lpc) (ok : bool) (r : reg nat) (ns : nstate) : reg nat * nstate * (lpc + lres) :=
   match pc with
   | LLookup =>
       match gmap ns with
@@ -110,7 +112,8 @@ Definition lstep (me : nat) (pc : lpc) (ok : bool) (r : reg nat) (ns : nstate) :
   | LReget p =>
       if negb ok then (r, ns, inr RErr)
       else match r_get gk r with
-           | None => (r, ns, inl (LActivate p false))   (* claim lost, then the owner record is gone: no claim, activates anyway *)
+           | None => if fx then (r, ns, inl (LClaim p))   (* repaired: claim again *)
+                     else (r, ns, inl (LActivate p false))   (* claim lost, then the owner record is gone: no claim, activates anyway *)
            | Some o => if Nat.eqb o me then (r, ns, inl (LActivate p false)) else (r, ns, inr RMismatch)
            end
   | LActivate p c =>
@@ -142,7 +145,7 @@ Fixpoint set_nth {A} (i : nat) (x : A) (l : list A) : list A :=
   | h :: t, S j => h :: set_nth j x t
   end.
 
-Definition step (s : state) (l : label) : option state :=
+Definition step (fx : bool) (s : state) (l : label) : option state :=
   match l with
   | Start n =>
       let ns := nodes s n in
@@ -155,7 +158,7 @@ Definition step (s : state) (l : label) : option state :=
       match flight ns with
       | None => None
       | Some pc =>
-          let '(r', ns', nx) := lstep n pc ok (sreg s) ns in
+          let '(r', ns', nx) := lstep fx n pc ok (sreg s) ns in
           Some (upd s n r' (match nx with inl pc' => set_flight ns' (Some pc') | inr res => set_done ns' res end))
       end
   | DeactStart n p =>
@@ -172,10 +175,10 @@ Definition step (s : state) (l : label) : option state :=
       end
   end.
 
-Fixpoint run (s : state) (ls : list label) : option state :=
+Fixpoint run (fx : bool) (s : state) (ls : list label) : option state :=
   match ls with
   | [] => Some s
-  | l :: t => match step s l with Some s' => run s' t | None => None end
+  | l :: t => match step fx s l with Some s' => run fx s' t | None => None end
   end.
 
 (* ---- what the property talks about *)
@@ -219,12 +222,12 @@ Definition overlap (s : state) (l : label) : bool :=
   | _ => false
   end.
 
-Definition guard (s : state) (l : label) : bool := negb (claimless s l) && negb (overlap s l).
+Definition guard (fx : bool) (s : state) (l : label) : bool := (fx || negb (claimless s l)) && negb (overlap s l).
 
-Fixpoint run_g (s : state) (ls : list label) : option state :=
+Fixpoint run_g (fx : bool) (s : state) (ls : list label) : option state :=
   match ls with
   | [] => Some s
-  | l :: t => if guard s l then match step s l with Some s' => run_g s' t | None => None end else None
+  | l :: t => if guard fx s l then match step fx s l with Some s' => run_g fx s' t | None => None end else None
   end.
 
 (* ================================================================== conformance interface
@@ -239,23 +242,23 @@ Definition hook_l (pc : lpc) : bool :=
   | _ => false
   end.
 
-Fixpoint settle_l (fuel : nat) (n : nat) (s : state) : state :=
+Fixpoint settle_l (fx : bool) (fuel : nat) (n : nat) (s : state) : state :=
   match fuel with
   | 0 => s
   | S f =>
       match flight (nodes s n) with
-      | Some pc => if hook_l pc then s else match step s (Lead n true) with Some s' => settle_l f n s' | None => s end
+      | Some pc => if hook_l pc then s else match step fx s (Lead n true) with Some s' => settle_l fx f n s' | None => s end
       | None => s
       end
   end.
 
-Fixpoint settle_d (fuel : nat) (n i : nat) (s : state) : state :=
+Fixpoint settle_d (fx : bool) (fuel : nat) (n i : nat) (s : state) : state :=
   match fuel with
   | 0 => s
   | S f =>
       match nth_error (deacts (nodes s n)) i with
       | Some (_, d) => if hook_d d || is_done d then s
-                       else match step s (Deact n i true) with Some s' => settle_d f n i s' | None => s end
+                       else match step fx s (Deact n i true) with Some s' => settle_d fx f n i s' | None => s end
       | None => s
       end
   end.
@@ -275,16 +278,16 @@ Definition hfirst (s : state) (h : hlabel) : option label :=
   | HDeact n i ok => Some (Deact n i ok)
   end.
 
-Definition hstep (s : state) (h : hlabel) : option state :=
+Definition hstep (fx : bool) (s : state) (h : hlabel) : option state :=
   match hfirst s h with
   | None => None
   | Some l =>
-      match step s l with
+      match step fx s l with
       | None => None
       | Some s' =>
           Some (match h with
-                | HStart n | HLead n _ => settle_l 8 n s'
-                | HDeact n i _ => settle_d 8 n i s'
+                | HStart n | HLead n _ => settle_l fx 8 n s'
+                | HDeact n i _ => settle_d fx 8 n i s'
                 | _ => s'
                 end)
       end
@@ -335,18 +338,18 @@ Definition quiescent_b (nn : nat) (s : state) : bool :=
 Definition unnamed_holder_b (nn : nat) (s : state) : bool :=
   existsb (fun np => match r_get gk (sreg s) with Some o => negb (Nat.eqb o (fst np)) | None => true end) (live_nodes nn s).
 
-Fixpoint conform (nn : nat) (s : state) (tr : list (hlabel * list nat)) (i : nat) (nc no mx : nat) (uq : option nat)
+Fixpoint conform (fx : bool) (nn : nat) (s : state) (tr : list (hlabel * list nat)) (i : nat) (nc no mx : nat) (uq : option nat)
   : option nat * nat * nat * nat * option nat :=
   match tr with
   | [] => (None, nc, no, mx, uq)
   | (h, o) :: t =>
       let nc' := nc + b2n (hclaimless s h) in
       let no' := no + b2n (hoverlap s h) in
-      match hstep s h with
+      match hstep fx s h with
       | None => (Some i, nc', no', mx, uq)
       | Some s' =>
           let mx' := Nat.max mx (length (live_nodes nn s')) in
           let uq' := match uq with Some _ => uq | None => if quiescent_b nn s' && unnamed_holder_b nn s' then Some i else None end in
-          if list_eqb (observe nn s') o then conform nn s' t (S i) nc' no' mx' uq' else (Some i, nc', no', mx', uq')
+          if list_eqb (observe nn s') o then conform fx nn s' t (S i) nc' no' mx' uq' else (Some i, nc', no', mx', uq')
       end
   end.
